@@ -100,13 +100,22 @@ fn isolated_fingerprint(case: &Case, args: &[String]) -> Option<String> {
     use std::os::unix::process::CommandExt;
     extern "C" {
         fn prctl(option: i32, arg2: u64, arg3: u64, arg4: u64, arg5: u64) -> i32;
+        fn sched_setaffinity(pid: i32, cpusetsize: usize, mask: *const u64) -> i32;
     }
+    // every second comparison child lives in a different environment: one CPU only (so that
+    // available_parallelism() == 1 there: DashMap gets 4 shards instead of 4 x cores). Its hash
+    // seeds and allocation addresses differ from the worker's anyway.
+    let one_cpu = n % 2 == 1;
     let mut cmd = std::process::Command::new(exe);
     cmd.arg("run-case").arg(&path).arg("--repo").arg(repo).env_remove("VERIF_ANNOUNCE").stdout(std::process::Stdio::piped()).stderr(std::process::Stdio::null());
     // SAFETY: prctl(PR_SET_PDEATHSIG, SIGKILL) is async-signal-safe: the child dies with this worker
     unsafe {
-        cmd.pre_exec(|| {
+        cmd.pre_exec(move || {
             prctl(1, 9, 0, 0, 0);
+            if one_cpu {
+                let mask = [1u64; 1];
+                sched_setaffinity(0, 8, mask.as_ptr());
+            }
             Ok(())
         });
     }
@@ -188,7 +197,7 @@ fn run_shard_prefix(case: &Case, args: &[String], engine_for: EngineFor) -> Outc
                 if out.violation.is_none() {
                     match isolated_fingerprint(&c, args) {
                         Some(f) if f != format!("{:016x}", out.fingerprint) => out.violate(
-                            format!("{} result depends on what the process did before (process-wide state)", case.prop),
+                            format!("{} result depends on what the process did before or on its environment (process-wide state, CPU count)", case.prop),
                             format!("case {}:{} gave fingerprint {:016x} after the worker path, {} alone in a fresh process: {}", unit.id, sub, out.fingerprint, f, c.origin),
                         ),
                         _ => {}
@@ -287,7 +296,7 @@ fn run_unit(eng: &dyn Engine, unit: &UnitSpec, progress: Option<&File>, skip: &[
                     if f != format!("{:016x}", out.fingerprint) {
                         iso_violations += 1;
                         out.violate(
-                            format!("{} result depends on what the process did before (process-wide state)", eng.prop()),
+                            format!("{} result depends on what the process did before or on its environment (process-wide state, CPU count)", eng.prop()),
                             format!("case {}:{} gave fingerprint {:016x} in the worker process, {} alone in a fresh process: {}", unit.id, sub, out.fingerprint, f, case.origin),
                         );
                         explicit_override = Some(shard_prefix_case(eng.prop(), iso.args, iso.shard, iso.first_unit, unit.id, sub as u64));
